@@ -18,6 +18,7 @@ require (
 	github.com/VictoriaMetrics/fastcache v1.5.7 // indirect
 	github.com/Workiva/go-datastructures v1.0.52 // indirect
 	github.com/Zilliqa/gozilliqa-sdk v1.2.1-0.20210927032600-4c733f2cb879 // indirect
+	github.com/anishathalye/porcupine v1.3.0
 	github.com/aristanetworks/goarista v0.0.0-20190607111240-52c2a7864a08 // indirect
 	github.com/bits-and-blooms/bitset v1.2.1 // indirect
 	github.com/blocktree/go-owcrypt v1.1.10 // indirect
